@@ -20,6 +20,12 @@ Clause → theorem (cells are items `x : β` with probability `w x ≥ 0`, visit
   warning iff grid content < 1-α; fallback        warn_iff_total_lt, fallback_all_cells
   the order visited is a sorted permutation       sortDesc_perm, sortDesc_sorted
   IndexError branch (densest cell > 1-α)          empty_iff_first_gt_limit
+  ValueError branch (NaN in the array)            nan_input_refused, checked_eq_of_no_nan
+  ALL of the above composed for the functions the driver runs (`cumsumBiggestUntil` on the order
+  `sortDesc` produces, `hdrRegion`), hypothesis: cell probabilities ≥ 0
+                                                  cumsum_biggest_until_spec, hdr_region_spec (RegionFacts)
+  cell probabilities ≥ 0 (leaf cdf monotone), cell probabilities = CDF differences, float rounding of
+  the cumulative sum                              observed per run (partial), see harness/c02.py
   the (cond, dist) matrix lands on the right axes of the n-D grid iff the conditioning
   axis comes first (hierarchy); transposed otherwise  reshape_index_of_cond_lt, reshape_transposes_if_cond_gt,
                                                       reshape_index_single
@@ -31,6 +37,8 @@ import Mathlib.Data.List.Basic
 import Mathlib.Data.List.Sort
 import Mathlib.Tactic.Linarith
 import Mathlib.Tactic.Ring
+import Mathlib.Tactic.NormNum
+import Mathlib.Algebra.BigOperators.Group.List.Basic
 
 namespace VirVerif.C02
 open VirVerif
@@ -254,6 +262,124 @@ theorem no_warning_region (vals : List α) (limit : α) (r : SelResult α)
     (h : cumsumBiggestUntil 0 vals limit = .ok r) (hw : r.warn = false) :
     hdrRegion 0 vals limit = .ok (r.selected, r.last, false) := by
   simp [hdrRegion, h, hw]
+
+
+/-! ### entry guard -/
+
+omit [Field α] [LinearOrder α] [IsStrictOrderedRing α] in
+/-- an array with a NaN entry is refused (`ValueError`), never selected from -/
+theorem nan_input_refused {γ : Type} [Add γ] [LE γ] [LT γ] [DecidableLE γ] [DecidableLT γ]
+    (isNan : γ → Bool) (zero : γ) (vals : List γ) (limit : γ) (h : vals.any isNan = true) :
+    cumsumBiggestUntilChecked isNan zero vals limit = .error .nanInput := by
+  simp [cumsumBiggestUntilChecked, h]
+
+omit [Field α] [LinearOrder α] [IsStrictOrderedRing α] in
+theorem checked_eq_of_no_nan {γ : Type} [Add γ] [LE γ] [LT γ] [DecidableLE γ] [DecidableLT γ]
+    (isNan : γ → Bool) (zero : γ) (vals : List γ) (limit : γ) (h : vals.any isNan = false) :
+    cumsumBiggestUntilChecked isNan zero vals limit = cumsumBiggestUntil zero vals limit := by
+  simp [cumsumBiggestUntilChecked, h]
+
+/-! ### end to end: the selection facts for the functions the driver runs -/
+
+omit [Field α] [IsStrictOrderedRing α] in
+theorem sortDesc_mem_vals (vals : List α) (P : α → Prop) (hP : ∀ v ∈ vals, P v) :
+    ∀ p ∈ sortDesc vals, P p.1 := by
+  intro p hp
+  exact hP _ (List.fst_mem_of_mem_zipIdx ((sortDesc_perm vals).mem_iff.mp hp))
+
+omit [LinearOrder α] [IsStrictOrderedRing α] in
+theorem foldl_fst_eq_sum (l : List (α × Nat)) (a : α) :
+    l.foldl (fun a p => a + p.1) a = a + (l.map Prod.fst).sum := by
+  induction l generalizing a with
+  | nil => simp
+  | cons x xs ih => simp only [List.foldl_cons, List.map_cons, List.sum_cons, ih]; ring
+
+omit [IsStrictOrderedRing α] in
+theorem sortDesc_total (vals : List α) :
+    (sortDesc vals).foldl (fun a p => a + p.1) 0 = vals.sum := by
+  rw [foldl_fst_eq_sum, zero_add]
+  have h := ((sortDesc_perm vals).map Prod.fst).sum_eq
+  rw [h]
+  congr 1
+  simp
+
+/-- the facts of the property about one selection `sel` / exclusion `exc` of (probability, flat index) cells -/
+structure RegionFacts (vals : List α) (limit : α) (sel exc : List (α × Nat)) (last : α) : Prop where
+  /-- every cell of the grid is either enclosed or excluded, none twice -/
+  partition : (sel ++ exc).Perm vals.zipIdx
+  /-- content ≤ 1-α -/
+  content_le : content Prod.fst sel ≤ limit
+  /-- every enclosed cell is at least as dense as every excluded cell -/
+  dominates : ∀ s ∈ sel, ∀ e ∈ exc, e.1 ≤ s.1
+  /-- the content misses the limit by less than the densest excluded cell -/
+  shortfall : ∀ x rest, exc = x :: rest → (∀ e ∈ exc, e.1 ≤ x.1) ∧ limit < content Prod.fst sel + x.1
+  /-- the reported value is the probability of the least dense enclosed cell -/
+  last_min : ∃ l ∈ sel, last = l.1 ∧ ∀ s ∈ sel, l.1 ≤ s.1
+
+/-- **end to end, `cumsum_biggest_until`** (the function the driver runs, instantiating the `select_*` lemmas
+with the order `sortDesc` produces): for non-negative cell probabilities, whenever it returns, the returned
+cells and `last_summed` satisfy every selection fact of the property, and the warning flag is raised iff the
+whole array sums to less than the limit. -/
+theorem cumsum_biggest_until_spec (vals : List α) (limit : α) (hnn : ∀ v ∈ vals, 0 ≤ v)
+    (r : SelResult α) (h : cumsumBiggestUntil 0 vals limit = .ok r) :
+    (∃ sel exc : List (α × Nat), r.selected = sel.map Prod.snd ∧ RegionFacts vals limit sel exc r.last) ∧
+      (r.warn = true ↔ vals.sum < limit) := by
+  have hw := warn_iff_total_lt vals limit r h
+  rw [sortDesc_total] at hw
+  refine ⟨?_, hw⟩
+  have hnn' : ∀ p ∈ sortDesc vals, 0 ≤ p.1 := sortDesc_mem_vals vals (fun v => 0 ≤ v) hnn
+  have hsorted := sortDesc_sorted vals
+  unfold cumsumBiggestUntil at h
+  simp only at h
+  split at h
+  · cases h
+  · split at h
+    · cases h
+    · rename_i l hl
+      cases h
+      have hlim : 0 ≤ limit := by
+        by_contra hc
+        rw [selItems_nil_of_gt Prod.fst 0 limit _ hnn' (not_le.mp hc)] at hl
+        simp at hl
+      obtain ⟨k, h1, h2⟩ := select_prefix Prod.fst 0 limit (sortDesc vals) hnn'
+      refine ⟨selItems Prod.fst 0 limit (sortDesc vals), exclItems Prod.fst 0 limit (sortDesc vals), rfl, ?_⟩
+      refine ⟨?_, ?_, ?_, ?_, ?_⟩
+      · rw [h1, h2, List.take_append_drop]; exact sortDesc_perm vals
+      · have := select_total_le Prod.fst 0 limit (sortDesc vals) hnn' hlim
+        simpa using this
+      · exact select_dominates Prod.fst 0 limit (sortDesc vals) hnn' hsorted
+      · intro x rest hex
+        refine ⟨excl_head_is_max Prod.fst 0 limit (sortDesc vals) hnn' hsorted x rest hex, ?_⟩
+        have := select_next_exceeds Prod.fst 0 limit (sortDesc vals) hnn' x rest hex
+        simpa using this
+      · obtain ⟨hm, hmin⟩ := last_is_min_selected Prod.fst 0 limit (sortDesc vals) hnn' hsorted l hl
+        exact ⟨l, hm, rfl, hmin⟩
+
+/-- **end to end, what `_compute` uses** (`hdrRegion` = `cumsum_biggest_until` + warning fallback): without a
+warning the region and the threshold probability satisfy all facts of the property and the grid holds at
+least `1-α`; with a warning the grid holds less than `1-α`, the region is the whole grid and the threshold 0. -/
+theorem hdr_region_spec (vals : List α) (limit : α) (hnn : ∀ v ∈ vals, 0 ≤ v)
+    (region : List Nat) (pm : α) (w : Bool) (h : hdrRegion 0 vals limit = .ok (region, pm, w)) :
+    (w = false → limit ≤ vals.sum ∧
+        ∃ sel exc : List (α × Nat), region = sel.map Prod.snd ∧ RegionFacts vals limit sel exc pm) ∧
+      (w = true → vals.sum < limit ∧ region = List.range vals.length ∧ pm = 0) := by
+  unfold hdrRegion at h
+  split at h
+  · cases h
+  · rename_i r hr
+    obtain ⟨hfacts, hwarn⟩ := cumsum_biggest_until_spec vals limit hnn r hr
+    by_cases hw : r.warn = true
+    · simp only [hw, if_true] at h
+      cases h
+      exact ⟨fun hc => (by cases hc), fun _ => ⟨hwarn.mp hw, rfl, rfl⟩⟩
+    · simp only [hw] at h
+      cases h
+      exact ⟨fun _ => ⟨not_lt.mp (fun hc => hw (hwarn.mpr hc)), hfacts⟩, fun hc => (by cases hc)⟩
+
+-- non-vacuity
+example : cumsumBiggestUntil (0 : ℚ) [2, 10, 1, 6] 18 = .ok ⟨[1, 3, 0], 2, false⟩ := by
+  norm_num [cumsumBiggestUntil, sortDesc, List.zipIdx, List.mergeSort, List.MergeSort.Internal.splitInTwo, List.merge, selItems]
+
 
 /-! ### placement of the per-dimension arrays in the n-D grid (`reshape` + broadcasting) -/
 
